@@ -264,6 +264,15 @@ impl Gen {
 
     fn ident(&mut self, len: usize) -> String {
         let mut s = String::new();
+        if self.rng.chance(300) {
+            // every character the stream-name packing has a code for
+            const FULL: &[u8] = b"0123456789ABCDEFGHIJKLMNOPQRSTUVWXYZabcdefghijklmnopqrstuvwxyz._";
+            s.push(FULL[10 + self.rng.usize_below(52)] as char);
+            while s.len() < len {
+                s.push(FULL[self.rng.usize_below(64)] as char);
+            }
+            return s;
+        }
         s.push(*self.rng.pick(&['A', 'b', '_', 'T', 'x']));
         while s.len() < len {
             s.push(*self.rng.pick(&['a', 'B', 'c', '1', '_', '.', 'Z', '9']));
@@ -740,8 +749,14 @@ impl Gen {
         let mut name = if r < 40 {
             let l = *self.rng.pick(&[1usize, 2, 3, 8, 15, 16, 31, 32, 61, 62]);
             let mut s = String::new();
+            let full = self.rng.chance(400);
             for _ in 0..l {
-                s.push(*self.rng.pick(&['a', 'B', '0', '9', '.', '_', 'z', 'Q', 'm']));
+                if full {
+                    const FULL: &[u8] = b"0123456789ABCDEFGHIJKLMNOPQRSTUVWXYZabcdefghijklmnopqrstuvwxyz._";
+                    s.push(FULL[self.rng.usize_below(64)] as char);
+                } else {
+                    s.push(*self.rng.pick(&['a', 'B', '0', '9', '.', '_', 'z', 'Q', 'm']));
+                }
             }
             s
         } else if r < 60 {
@@ -1196,9 +1211,9 @@ impl Gen {
             2 => {
                 let c = &t.cols[self.rng.usize_below(t.cols.len())];
                 let v = if c.is_str() { Val::Int(1) } else { Val::Str("x".into()) };
-                // valid first assignment, invalid second
+                // valid first assignment, invalid second (now and then to the very same column)
                 let mut sets = Vec::new();
-                let c0 = &t.cols[t.cols.len() - 1];
+                let c0 = if self.rng.chance(350) { c } else { &t.cols[t.cols.len() - 1] };
                 if !c0.key {
                     sets.push((c0.name.clone(), self.gen_value(c0, false)));
                 }
@@ -1733,7 +1748,19 @@ pub fn gen_foreign_spec_ext(rng: &mut Prng, big: bool, wide_ok: bool) -> Foreign
     let mut streams = Vec::new();
     for i in 0..rng.below(4) {
         g.serial += 1;
-        streams.push((format!("Bin{}.dat", i), *rng.pick(&[0u32, 10, 4095, 4096, 5000]), g.serial));
+        let name = if rng.chance(400) {
+            // names over the whole packing alphabet, odd and even lengths, and characters that are not packed
+            const FULL: &[u8] = b"0123456789ABCDEFGHIJKLMNOPQRSTUVWXYZabcdefghijklmnopqrstuvwxyz._";
+            let l = 1 + rng.usize_below(12);
+            let mut n: String = (0..l).map(|_| FULL[rng.usize_below(64)] as char).collect();
+            if rng.chance(200) {
+                n.push(*rng.pick(&['-', ' ', 'é', '(', '漢']));
+            }
+            format!("{}{}", n, i)
+        } else {
+            format!("Bin{}.dat", i)
+        };
+        streams.push((name, *rng.pick(&[0u32, 10, 4095, 4096, 5000]), g.serial));
     }
     ForeignSpec {
         ptype: *rng.pick(&[PType::Installer, PType::Patch, PType::Transform]),
